@@ -74,3 +74,21 @@ pub fn positions_from_bytes(data: &[u8]) -> Vec<(&'static str, CaseResult)> {
     out.retain(|(_, r)| r.is_err());
     out
 }
+
+pub fn state_from_bytes(data: &[u8]) -> Vec<(&'static str, CaseResult)> {
+    QUIET.call_once(quiet_panics);
+    if data.len() < 8 {
+        return Vec::new();
+    }
+    let rng = TestRng::from_seed(RngAlgorithm::PassThrough, data);
+    let mut runner = TestRunner::new_with_rng(Config { failure_persistence: None, ..Config::default() }, rng);
+    let strategy = crate::gen2::arb_edited_state();
+    let Ok(tree) = strategy.new_tree(&mut runner) else { return Vec::new() };
+    let st = tree.current().state();
+    let mut out: Vec<(&'static str, CaseResult)> = Vec::new();
+    out.push(("C06", c06::check_builder_state(&st)));
+    out.push(("C09", c09::check_state(&st)));
+    out.push(("C09", c09::check_labelled(&st).map(|_| ())));
+    out.retain(|(_, r)| r.is_err());
+    out
+}
